@@ -43,6 +43,10 @@ pub struct TraceSlider {
 
     /// Count of seen elements since the last position update.
     seen_elements: SeenElements,
+
+    /// Verification hook: positions handed out by `next_state` so far.
+    #[cfg(aquavm_verif)]
+    verif_consumed: std::collections::BTreeSet<u32>,
 }
 
 impl TraceSlider {
@@ -66,6 +70,8 @@ impl TraceSlider {
         }
 
         let result = self.trace[self.position].clone();
+        #[cfg(aquavm_verif)]
+        self.verif_consumed.insert(self.position.into());
         self.position += 1;
         self.seen_elements += 1;
         Some(result)
@@ -119,6 +125,21 @@ impl TraceSlider {
     pub(crate) fn state_at_position(&self, position: TracePos) -> Option<&ExecutedState> {
         // it would be nice to have the `impl SliceIndex for TracePos`, but it is unstable
         self.trace.get(position)
+    }
+
+    /// Verification hook: was the state at `position` handed out by `next_state` already.
+    #[cfg(aquavm_verif)]
+    pub(crate) fn verif_was_consumed(&self, position: TracePos) -> bool {
+        self.verif_consumed.contains(&position.into())
+    }
+
+    /// Verification hook: the state `next_state` would return, without consuming it.
+    #[cfg(aquavm_verif)]
+    pub(crate) fn verif_peek(&self) -> Option<&ExecutedState> {
+        if self.seen_elements >= self.subtrace_len {
+            return None;
+        }
+        self.trace.get(self.position)
     }
 
     pub(super) fn trace_len(&self) -> TraceLen {
